@@ -55,7 +55,7 @@ NAMED_UNDER = {"ZeroT": "struct", "ZeroP": "struct", "FoldT": "struct", "FoldObj
 
 # types with user-defined unfolders (harness/gotype_user.go, SFGoType!ExpUser): field kinds of their struct
 USER_UNFOLD = {"UStr": ["string"], "UI64": ["int64"], "UPt": ["int64", "int64"], "UExp": ["int64", "int64"],
-               "UObj": ["string", "int64"], "UProc": ["int64", "int64"]}
+               "UObj": ["string", "int64"], "UProc": ["int64", "int64"], "USelf": ["int64"]}
 
 
 def user_stream(tid, rnd):
@@ -76,6 +76,9 @@ def user_stream(tid, rnd):
             out.append(streams.ev("key", rnd.choice(["key", "keyref"]), list(name)))
             out += evs
         return out + [streams.ev("objE", "objE")]
+    if tid == "USelf":
+        return [streams.ev("objS", "objS", (), rnd.choice([1, -1]), "any"), streams.ev("key", rnd.choice(["key", "keyref"]), list(b"n")),
+                streams.ev("int", rnd.choice(["int8", "uint8", "int64", "int"]), streams.canon(rnd.randrange(25))), streams.ev("objE", "objE")]
     n = rnd.randrange(4)
     return [streams.ev("arrS", "arrS", (), rnd.choice([n, -1]), "any")] + [i64() for _ in range(n)] + [streams.ev("arrE", "arrE")]
 
